@@ -244,6 +244,64 @@ fn parse_dump(s: &str) -> Option<Dump> {
     Some(Dump { ch, p, s: sg, node })
 }
 
+/// renumber the infosets of a dump canonically (order of first appearance in the pre-order walk
+/// of the tree): internal indices are the crate's own business
+fn canonical_dump(d: &Dump, text: &str) -> Dump {
+    let maps = IndexMaps::of_dump(text);
+    let mut ch = vec![Vec::new(); d.ch.len()];
+    for (i, p) in d.ch.iter().enumerate() {
+        let c = maps.canon(0, i);
+        if c < ch.len() {
+            ch[c] = p.clone();
+        }
+    }
+    let mut p: [Vec<(u32, String, Vec<u32>)>; 2] = [Vec::new(), Vec::new()];
+    for pl in 0..2 {
+        let mut tab: Vec<Option<(u32, String, Vec<u32>)>> = vec![None; d.p[pl].len()];
+        for (i, (l, prev, acts)) in d.p[pl].iter().enumerate() {
+            // "prev infoset, action index" of the same player, or "- -"
+            let mut it = prev.split(' ');
+            let (a, b) = (it.next().unwrap_or("-"), it.next().unwrap_or("-"));
+            let prev2 = match a.parse::<usize>() {
+                Ok(x) => format!("{} {}", maps.canon(pl as u8 + 1, x), b),
+                Err(_) => prev.clone(),
+            };
+            let c = maps.canon(pl as u8 + 1, i);
+            if c < tab.len() {
+                tab[c] = Some((*l, prev2, acts.clone()));
+            }
+        }
+        p[pl] = tab.into_iter().flatten().collect();
+    }
+    let mut node = Vec::with_capacity(d.node.len());
+    let mut i = 0;
+    while i < d.node.len() {
+        match d.node[i].as_str() {
+            "C" if i + 2 < d.node.len() => {
+                let idx = d.node[i + 1].parse::<usize>().unwrap_or(0);
+                node.push("C".to_string());
+                node.push(maps.canon(0, idx).to_string());
+                node.push(d.node[i + 2].clone());
+                i += 3;
+            }
+            "P" if i + 3 < d.node.len() => {
+                let k = if d.node[i + 1] == "1" { 1 } else { 2 };
+                let idx = d.node[i + 2].parse::<usize>().unwrap_or(0);
+                node.push("P".to_string());
+                node.push(d.node[i + 1].clone());
+                node.push(maps.canon(k, idx).to_string());
+                node.push(d.node[i + 3].clone());
+                i += 4;
+            }
+            _ => {
+                node.push(d.node[i].clone());
+                i += 1;
+            }
+        }
+    }
+    Dump { ch, p, s: [d.s[0].clone(), d.s[1].clone()], node }
+}
+
 fn dumps_agree(a: &Dump, b: &Dump) -> Result<(), String> {
     if a.ch.len() != b.ch.len() {
         return Err(format!("{} vs {} chance infosets", a.ch.len(), b.ch.len()));
@@ -302,7 +360,7 @@ pub fn case_compile(ctx: &mut Ctx, case: &Value) {
             }
             match resp.strip_prefix("ok ") {
                 None => ctx.fail_corr(case, format!("library accepted, model answered {:?}", resp)),
-                Some(d) => match (parse_dump(&g.verif_dump()), parse_dump(d)) {
+                Some(d) => match (parse_dump(&g.verif_dump()).map(|x| canonical_dump(&x, &g.verif_dump())), parse_dump(d).map(|x| canonical_dump(&x, d))) {
                     (Some(a), Some(b)) => {
                         if let Err(e) = dumps_agree(&a, &b) {
                             ctx.fail_corr(case, format!("compiled games differ: {}", e));
@@ -466,11 +524,11 @@ fn blocks_agree(lib: &(Blocks, usize), model: &(Blocks, usize), n_multi: usize) 
         return Err(format!("advertised lengths differ: library {:?} model {:?}", lens_l, lens_m));
     }
     let canon = |b: &Blocks| -> Vec<(u32, Vec<(usize, Option<(u32, f64)>)>)> {
-        let mut multi: Vec<_> = b.iter().take(n_multi).map(|x| (x.1, x.2.clone())).collect();
-        let mut single: Vec<_> = b.iter().skip(n_multi).map(|x| (x.1, x.2.clone())).collect();
-        single.sort_by_key(|x| x.0);
-        multi.extend(single);
-        multi
+        // the order in which infosets are listed is not part of the contract: by label
+        let _ = n_multi;
+        let mut all: Vec<_> = b.iter().map(|x| (x.1, x.2.clone())).collect();
+        all.sort_by_key(|x| x.0);
+        all
     };
     for (x, y) in canon(&lib.0).iter().zip(canon(&model.0).iter()) {
         if x.0 != y.0 || x.1.len() != y.1.len() {
